@@ -18,7 +18,7 @@ import lingo_gen as L
 from lingo_gen import S, sx
 
 PROP = "C03"
-LEAN_MODULES = ["DrxProps.C03", "DrxProps.C03b", "DrxProps.C03Link"]
+LEAN_MODULES = ["DrxProps.C03", "DrxProps.C03b", "DrxProps.C03Link", "DrxProps.C03Link2"]
 FAMILIES = ["lspec"]
 RULE = ("skeletons are enumerated exhaustively (see docstring) with unique markers in every simple statement, condition and bound; "
         "programs are compiled by the Lean scheme and the nesting tree read back from the real decompiler's text must equal the source "
